@@ -322,6 +322,7 @@ namespace llh {
         virtual ll::read_buffer  allocate_receive_buffer()                               = 0;
         virtual ll::write_buffer received( ll::read_buffer )                             = 0;
         virtual ll::write_buffer next_transmit()                                         = 0;
+        virtual ll::write_buffer mic_failure( ll::read_buffer )                          = 0;
         virtual std::uint16_t    event_counter()                                         = 0;
         virtual bool             cpr( unsigned, unsigned, unsigned, unsigned )           = 0;   // connection_parameter_update_request
         virtual bool             icpr( unsigned, unsigned, unsigned, unsigned )          = 0;   // initiating_connection_parameter_request
@@ -347,6 +348,7 @@ namespace llh {
         ll::read_buffer  allocate_receive_buffer() override { return d.allocate_receive_buffer(); }
         ll::write_buffer received( ll::read_buffer b ) override { return d.received( b ); }
         ll::write_buffer next_transmit() override { return d.next_transmit(); }
+        ll::write_buffer mic_failure( ll::read_buffer b ) override { return d.mic_failure( b ); }
         std::uint16_t    event_counter() override { return d.connection_event_counter(); }
         bool cpr( unsigned a, unsigned b, unsigned c, unsigned e ) override { return d.connection_parameter_update_request( a, b, c, e ); }
         bool icpr( unsigned a, unsigned b, unsigned c, unsigned e ) override { return d.initiating_connection_parameter_request( a, b, c, e ); }
@@ -393,6 +395,11 @@ namespace llh {
         bool                  have_first_seen = false;
         std::uint64_t         first_seen_us   = 0;
         conn_params           params;
+        // F-27b: the hardware bindings call next_transmit() when no receive buffer is available, so the acknowledgement
+        // in the header of the received PDU is lost; once receive and transmit ring are both full the link is dead.
+        // lenient == true: an *empty* PDU is handed to acknowledge() from a buffer of the radio in that situation.
+        bool                  lenient_when_rx_full = false;
+        unsigned              rx_full = 0, rx_full_on_empty = 0, rx_full_rescued = 0;
 
         explicit central( dev_if& dev ) : d( dev ) {}
 
@@ -488,7 +495,19 @@ namespace llh {
                 ll::write_buffer t;
                 if ( b.size == 0 || b.size < 2 + cur.payload.size() )
                 {
-                    t = d.next_transmit();
+                    ++rx_full;
+                    if ( cur.payload.empty() )
+                        ++rx_full_on_empty;
+                    if ( cur.payload.empty() && lenient_when_rx_full )
+                    {
+                        static std::uint8_t scratch[ 8 ];
+                        scratch[ 0 ] = static_cast< std::uint8_t >( 1 | ( sn ? 8 : 0 ) | ( nesn ? 4 : 0 ) );
+                        scratch[ 1 ] = 0;
+                        ++rx_full_rescued;
+                        t = d.mic_failure( ll::read_buffer{ scratch, 2 } );
+                    }
+                    else
+                        t = d.next_transmit();
                 }
                 else
                 {
@@ -598,7 +617,8 @@ namespace llh {
     inline rc::Gen< conn_params > gen_params( bool long_intervals )
     {
         return rc::gen::map(
-            rc::gen::tuple( rc::gen::elementOf( long_intervals ? std::vector< unsigned >{ 6, 24, 80, 400, 800, 1600, 3200 } : std::vector< unsigned >{ 6, 7, 24, 80, 400 } ),
+            rc::gen::tuple( long_intervals ? rc::gen::weightedElement< unsigned >( { { 1, 6 }, { 1, 24 }, { 3, 80 }, { 4, 400 }, { 4, 800 }, { 4, 1600 }, { 3, 3200 } } )
+                                               : rc::gen::weightedElement< unsigned >( { { 2, 6 }, { 1, 7 }, { 3, 24 }, { 3, 80 }, { 2, 400 } } ),
                 verif::range< unsigned >( 0, 3 ), verif::range< unsigned >( 0, 3 ), verif::range< unsigned >( 5, 16 ), verif::range< unsigned >( 0, 7 ),
                 verif::range< unsigned >( 1, 4 ), verif::range< unsigned >( 0, 2 ) ),
             []( const std::tuple< unsigned, unsigned, unsigned, unsigned, unsigned, unsigned, unsigned >& t ) {
